@@ -276,6 +276,16 @@ func (k *checker) oneSuffix(pathPart, target string, compareRef bool) bool {
 		k.c.Violate("uri-path-containment", "target %q -> URI.Path() %q %s", target, got, msg)
 		return false
 	}
+	// the path is a function of this target alone: the checker's URI object has parsed other
+	// targets before (as a pooled request's URI has), a fresh one has not
+	var fresh protocol.URI
+	fresh.Parse([]byte("h"), []byte(target))
+	if f := string(fresh.Path()); f != got {
+		t := target
+		k.c.Detail = func() interface{} { return map[string]interface{}{"target": t} }
+		k.c.Violate("uri-path-stale", "target %q -> URI.Path() %q on a URI object that parsed other targets before, %q on a fresh one", target, got, f)
+		return false
+	}
 	if compareRef {
 		if r := ref(pathPart); r != got {
 			t := target
